@@ -121,6 +121,42 @@ Fixpoint g_loop (fuel : nat) (st : list id) (pending : list node) : list node * 
 Definition g_sched (nodes : list node) : list node * list node :=
   g_loop (length nodes) [] nodes.
 
+(** ** The small repair of genGlobalVarDecl proposed in the report (NOT applied to the code):
+    restart the scan after each emitted variable.
+
+    [[
+        for i, n := range nodes {
+          ... if !canInit { revisit = append(revisit, n); continue }
+          varNode.child = append(varNode.child, n); inited[n] = true
+          revisit = append(revisit, nodes[i+1:]...)   // added
+          break                                       // added
+        }
+        if len(revisit) == 0 || equalNodes(nodes, revisit) { break }
+        nodes = revisit; revisit = []*node{}
+    ]] *)
+Fixpoint r_pass (st : list id) (nodes : list node) : option node * list node :=
+  match nodes with
+  | [] => (None, [])
+  | n :: rest =>
+      if ready st n then (Some n, rest)
+      else let '(e, r) := r_pass st rest in (e, n :: r)
+  end.
+
+Fixpoint r_loop (fuel : nat) (st : list id) (nodes : list node) : list node * list node :=
+  match fuel with
+  | O => ([], nodes)
+  | S k =>
+      let '(e, r) := r_pass st nodes in
+      match e with
+      | None => ([], r)
+      | Some n => if is_nil r then ([n], [])
+                  else let '(e', r') := r_loop k (nid n :: st) r in (n :: e', r')
+      end
+  end.
+
+Definition r_sched (nodes : list node) : list node * list node :=
+  r_loop (S (length nodes)) [] nodes.
+
 (** Every node is ready when its turn comes: the list is already in dependency order. *)
 Fixpoint all_ready_in_order (st : list id) (nodes : list node) : bool :=
   match nodes with
